@@ -5,13 +5,19 @@
    real cancel loops; the right-hand side mentions neither schedule nor batching: independence);
    (2) the results summary written at completion lists exactly the recorded rows and reports exactly
    the jobs without a row as missing (system model).
-   NOT PROVED in Coq: that a fault-free acyclic run ends with no missing job (needs the liveness
-   argument of C05) - decided on impl by the oracles over all explored schedules, local mode
-   included.  Stated as partial in MANIFEST.json. *)
+   (3) completeness: in every fault-free run of an acyclic configuration, whatever the batching
+   parameters, the number of rounds and the interleaving, the results summary reports no missing job
+   and lists a result for every configured job (SystemComplete.v; "fault-free" is the executable
+   predicate SystemFault.fault_free, evaluated by the check on every impl trace of its fault-free
+   modes, so the hypothesis is one that real runs are seen to satisfy).
+   NOT PROVED in Coq: that a run reaches the summary at all (termination of the real processes; the
+   acceptor has no scheduling) and local mode (no batches; outside the system model) - decided on impl
+   by the oracles over all explored schedules.  Still stated as partial in MANIFEST.json. *)
 From Coq Require Import List ZArith NArith Bool.
 From Jade Require Import Base.
 From Jade Require Cancel CancelProofs.
-From Jade Require System SystemMonitors SystemTheorems.
+From Jade Require System SystemMonitors SystemTheorems SystemFault SystemComplete.
+From Jade.Props Require SysExamples.
 Import ListNotations.
 
 Theorem c03_rows_are_reference_partial : forall sc, CancelProofs.acyclic sc -> NoDup (map Cancel.jname sc) ->
@@ -43,3 +49,25 @@ Theorem c03_summary_faithful : forall sc tr1 p res miss tr2 s,
     (forall r, In r res -> In r (SystemMonitors.rows_of tr1)).
 Proof. exact SystemTheorems.summary_faithful. Qed.
 Print Assumptions c03_summary_faithful.
+
+(* completeness: fault-free + acyclic => nothing missing, one result per configured job *)
+Theorem c03_complete_when_fault_free : forall sc tr1 p res miss tr2 s,
+  SystemComplete.acyclic sc -> SystemComplete.nodes_ok sc ->
+  System.run sc (tr1 ++ System.ESummary p res miss :: tr2) = Some s ->
+  SystemFault.fault_free sc System.init (tr1 ++ System.ESummary p res miss :: tr2) = true ->
+  miss = [] /\ forall j, In j (System.all_jobs sc) -> In j (System.row_names res).
+Proof. exact SystemComplete.complete_no_missing. Qed.
+Print Assumptions c03_complete_when_fault_free.
+
+(* the hypotheses are satisfiable: the example run is accepted, fault-free, acyclic and has a summary *)
+Example c03_complete_nonvacuous :
+  SysExamples.accepted SysExamples.ex_sc SysExamples.ex_tr = true /\
+  SystemFault.fault_free SysExamples.ex_sc System.init SysExamples.ex_tr = true /\
+  SystemComplete.acyclic SysExamples.ex_sc /\ SystemComplete.nodes_ok SysExamples.ex_sc /\
+  existsb (fun e => match e with System.ESummary _ _ _ => true | _ => false end) SysExamples.ex_tr = true.
+Proof.
+  split; [vm_compute; reflexivity|]. split; [vm_compute; reflexivity|]. split; [|split; vm_compute; reflexivity].
+  exists N.to_nat. intros j d Hj Hd. vm_compute in Hj.
+  destruct Hj as [<-|[<-|[<-|[]]]]; vm_compute in Hd; try contradiction.
+  destruct Hd as [<-|[]]. split; [vm_compute; auto|vm_compute; auto].
+Qed.
